@@ -44,6 +44,7 @@ type Params struct {
 	Trailing int  // bytes after __LINKEDIT
 	SigFirst bool // LC_CODE_SIGNATURE placed before __LINKEDIT's segment command
 	NoLE     bool // no __LINKEDIT segment at all
+	RevSects bool // section headers listed in descending file order (the lowest section is not the first one listed)
 	CmdSlack int  // unused bytes inside sizeofcmds behind the last load command (refused without LC_CODE_SIGNATURE: fix F-MACHO-4)
 }
 
@@ -55,8 +56,9 @@ func RandParams(r *hx.Rng) Params {
 		Slack:    r.Pick(0, 8, 15, 16, 17, 24, 64, 200),
 		LinkEdit: r.Pick(0, 1, 7, 8, 9, 100, 4096, 5000),
 		Extra:    r.Pick(0, 0, 1, 2),
-		Sections: r.Pick(1, 1, 2, 0),
+		Sections: r.Pick(1, 1, 2, 0, 3),
 	}
+	p.RevSects = p.Sections >= 2 && r.Intn(3) == 0
 	return p
 }
 
@@ -160,6 +162,11 @@ func Build(r *hx.Rng, p Params, oldSig []byte) []byte {
 	for i := 0; i < p.Sections; i++ {
 		per := (textSize - firstSect) / p.Sections
 		sects = append(sects, [2]uint32{uint32(firstSect + i*per), uint32(per)})
+	}
+	if p.RevSects {
+		for i, j := 0, len(sects)-1; i < j; i, j = i+1, j-1 {
+			sects[i], sects[j] = sects[j], sects[i]
+		}
 	}
 	seg("__TEXT", 0, uint64(textSize), sects)
 	for i := 0; i < p.Extra; i++ {
